@@ -1,9 +1,13 @@
 (* C09 — property theorems.  Nothing but statements closed by `exact`, each followed
    by Print Assumptions.  The model (Model.v) mirrors KeepOptions::apply/matches; the
    period predicates, the keep_checks rows and is_valid are regenerated from the
-   source into Extracted.v on every run. *)
+   source into Extracted.v on every run.  Groups.v mirrors the command level above it
+   (Grouped::from_items, the sort apply does itself, the ForgetGroups functions); the group key, its equality
+   and order, the order `apply` sorts by, the filter of into_forget_ids and the keep flag
+   of from_snapshots are regenerated from the source as well. *)
 From Verif.Base Require Import Tactics.
-From Verif.C09 Require Import Calendar ModelBase Extracted Model Spec Proofs Proofs2.
+Require Import Coq.Sorting.Permutation.
+From Verif.C09 Require Import Calendar ModelBase Extracted Model Spec Proofs Proofs2 Groups Proofs3 Proofs4 Proofs5 Proofs6.
 Local Open Scope Z_scope.
 
 (* The decrementing-counter loop keeps exactly the snapshots of the declarative
@@ -59,3 +63,176 @@ Theorem reasons_are_rules : forall k cs seen sn prev rest latest x,
   reason_holds L_adj k latest seen prev sn rest x = true.
 Proof. exact matches_reasons. Qed.
 Print Assumptions reasons_are_rules.
+
+(* ======================================================================== calendar *)
+(* Every documented period key (minute ... year, ISO week) is monotone in the instant, in
+   every fixed-offset zone, for ALL instants. *)
+Theorem calendar_keys_monotone : forall p i1 i2 o, i1 <= i2 ->
+  lex_leb (key p (civil_of i1 o)) (key p (civil_of i2 o)) = true.
+Proof. exact key_mono. Qed.
+Print Assumptions calendar_keys_monotone.
+
+(* The premise of runs_are_periods is derived: sorted by time, one UTC offset. *)
+Theorem keys_monotone_derived : forall l,
+  sorted_desc l = true -> same_offset l = true -> keys_monotone l = true.
+Proof. exact sorted_keys_monotone. Qed.
+Print Assumptions keys_monotone_derived.
+
+Theorem apply_is_documented_sorted : forall k now l res,
+  sorted_desc l = true -> same_offset l = true -> apply_sorted k now l = Some res ->
+  map snap_of res = l /\ map flag res = doc_apply k now l.
+Proof. exact apply_is_documented_sorted_lemma. Qed.
+Print Assumptions apply_is_documented_sorted.
+
+(* ======================================================================== command level *)
+(* What was regenerated from the source is what the model assumes: `apply` sorts newest
+   first; the order on group keys is a total order whose equality is equality of all four
+   fields; must_keep / must_delete as modelled; from_items = sort by key + chunk_by key;
+   retention = apply per group. *)
+Theorem source_facts :
+  (forall l, sorted_by apply_order l = sorted_desc l) /\
+  ord_ok gkey_cmp /\
+  (forall a b, gkey_eqb a b = true <-> a = b) /\
+  (forall s now, must_keep s now = must_keep_src (s_del s) now) /\
+  (forall s now, must_delete s now = must_delete_src (s_del s) now) /\
+  from_items_sorts_by_group_key = true /\ retention_is_apply_per_group = true.
+Proof. exact source_facts_lemma. Qed.
+Print Assumptions source_facts.
+
+(* The specification of the two unstable sorts is satisfiable (insertion sorts). *)
+Theorem sort_specs_inhabited : ksort_spec ksort_stable /\ tsort_spec tsort_stable.
+Proof. exact sorts_exist. Qed.
+Print Assumptions sort_specs_inhabited.
+
+(* Two snapshots have the same group key iff they agree on every field the criterion
+   selects (string lists compared as sets). *)
+Theorem same_group_iff : forall c a b,
+  gkey c a = gkey c b <->
+  (cr_host c = true -> s_host a = s_host b) /\
+  (cr_label c = true -> s_label a = s_label b) /\
+  (cr_paths c = true -> forall x, In x (s_paths a) <-> In x (s_paths b)) /\
+  (cr_tags c = true -> forall x, In x (s_tags a) <-> In x (s_tags b)).
+Proof. exact same_key_iff_lemma. Qed.
+Print Assumptions same_group_iff.
+
+(* Grouped::from_items, for every sort function that meets the specification: the groups
+   are the key classes of the input, keys strictly ascending (so pairwise different), no
+   group empty, every snapshot in the group of its key, nothing lost or duplicated. *)
+Theorem grouping_is_partition : forall ksort, ksort_spec ksort -> forall c l,
+  keys_ascending (from_items ksort c l) = true /\
+  NoDup (map fst (from_items ksort c l)) /\
+  Permutation (concat (map snd (from_items ksort c l))) l /\
+  (forall g items, In (g, items) (from_items ksort c l) ->
+     items <> [] /\ items = filter (keyis c g) (ksort c l) /\ Permutation items (own_group c l g)) /\
+  (forall s, In s l -> exists items, In (gkey c s, items) (from_items ksort c l) /\ In s items) /\
+  map fst (from_items ksort c l) = group_keys c l.
+Proof. exact grouping_is_partition_lemma. Qed.
+Print Assumptions grouping_is_partition.
+
+(* With a stable sort the members of a group appear in input order. *)
+Theorem stable_grouping_keeps_input_order : forall c l g items,
+  In (g, items) (from_items ksort_stable c l) -> items = own_group c l g.
+Proof. exact stable_grouping_lemma. Qed.
+Print Assumptions stable_grouping_keeps_input_order.
+
+(* The sort `apply` does itself: any two results show the same sequence of times; they
+   can differ only in the arrangement of snapshots with equal times, and not at all when
+   the times are pairwise distinct. *)
+Theorem time_sort_determined : forall l1 l2,
+  Permutation l1 l2 -> sorted_desc l1 = true -> sorted_desc l2 = true ->
+  map s_inst l1 = map s_inst l2 /\ (NoDup (map s_inst l1) -> l1 = l2).
+Proof. exact time_sort_determined_lemma. Qed.
+Print Assumptions time_sort_determined.
+
+(* The order in which the loop of `apply` walks group g: a newest-first permutation of the
+   snapshots of the input that carry key g; the stable one when their times are distinct. *)
+Theorem arrangement_is_own_group_newest_first : forall ksort tsort, ksort_spec ksort -> tsort_spec tsort ->
+  forall c l g,
+  Permutation (own_group c l g) (arrangement ksort tsort c l g) /\
+  sorted_desc (arrangement ksort tsort c l g) = true /\
+  (NoDup (map s_inst (own_group c l g)) -> arrangement ksort tsort c l g = tsort_stable (own_group c l g)).
+Proof. exact arrangement_lemma. Qed.
+Print Assumptions arrangement_is_own_group_newest_first.
+
+(* into_forget_ids returns exactly the ids of the snapshots that the retention loop, run on
+   the snapshot's own group, does not keep. *)
+Theorem forget_ids_exact : forall ksort tsort, ksort_spec ksort -> tsort_spec tsort ->
+  forall c k now l ids,
+  forget ksort tsort c k now l = Some ids ->
+  forall i, In i ids <->
+    exists s res rs, In s l /\ s_id s = i /\
+      apply_sorted k now (arrangement ksort tsort c l (gkey c s)) = Some res /\ In (s, false, rs) res.
+Proof. exact forget_ids_exact_thm. Qed.
+Print Assumptions forget_ids_exact.
+
+(* ... and, when the snapshots of one group share a UTC offset, exactly the snapshots the
+   documented rules (doc_apply: newest of the newest N periods of the group, keep-within,
+   tags, ids, delete marks) remove from that group. *)
+Theorem forget_ids_documented : forall ksort tsort, ksort_spec ksort -> tsort_spec tsort ->
+  forall c k now l ids,
+  forget ksort tsort c k now l = Some ids ->
+  (forall a b, In a l -> In b l -> gkey c a = gkey c b -> s_offs a = s_offs b) ->
+  forall i, In i ids <->
+    exists s, In s l /\ s_id s = i /\
+      In (s, false) (combine (arrangement ksort tsort c l (gkey c s))
+                             (doc_apply k now (arrangement ksort tsort c l (gkey c s)))).
+Proof. exact forget_ids_documented_thm. Qed.
+Print Assumptions forget_ids_documented.
+
+(* Every snapshot is either reported for removal or kept, never both, none lost; with
+   distinct ids every id is returned at most once. *)
+Theorem forget_partition : forall ksort tsort, ksort_spec ksort -> tsort_spec tsort ->
+  forall c k now l fgs,
+  forget_groups ksort tsort c k now l = Some fgs ->
+  into_forget_ids fgs = map s_id (flat_map (fun fg : fgroup => removed_of (snd fg)) fgs) /\
+  Permutation (flat_map (fun fg : fgroup => removed_of (snd fg)) fgs ++
+               flat_map (fun fg : fgroup => kept_of (snd fg)) fgs) l /\
+  (NoDup (map s_id l) -> NoDup (into_forget_ids fgs)).
+Proof. exact forget_partition_thm. Qed.
+Print Assumptions forget_partition.
+
+(* The entry of key g is apply on g's own arrangement; with distinct times inside every
+   group the whole result is the sort-free reading forget_groups_spec, whatever the sorts. *)
+Theorem forget_decision_is_local : forall ksort tsort, ksort_spec ksort -> tsort_spec tsort ->
+  forall c k now l,
+  (forall fgs, forget_groups ksort tsort c k now l = Some fgs ->
+     map fst fgs = group_keys c l /\
+     forall g res, In (g, res) fgs <->
+       In g (group_keys c l) /\ apply_sorted k now (arrangement ksort tsort c l g) = Some res) /\
+  ((forall g, NoDup (map s_inst (own_group c l g))) ->
+     forget_groups ksort tsort c k now l = forget_groups_spec c k now l).
+Proof. exact forget_local_thm. Qed.
+Print Assumptions forget_decision_is_local.
+
+(* Adding snapshots of other groups changes nothing for group g. *)
+Theorem others_do_not_matter : forall c k now l extra f1 f2 g,
+  forget_groups_spec c k now l = Some f1 -> forget_groups_spec c k now (l ++ extra) = Some f2 ->
+  Forall (fun s => gkey c s <> g) extra ->
+  forall res, In (g, res) f1 <-> In (g, res) f2.
+Proof. exact others_do_not_matter_thm. Qed.
+Print Assumptions others_do_not_matter.
+
+(* The command fails iff no keep option is given and there is a snapshot. *)
+Theorem forget_errors_iff : forall ksort tsort, ksort_spec ksort -> forall c k now l,
+  forget_groups ksort tsort c k now l = None <-> is_valid k = false /\ l <> [].
+Proof. exact forget_errors_thm. Qed.
+Print Assumptions forget_errors_iff.
+
+(* "forget by explicit ids": one default group in input order; kept = delete-never or
+   delete-after not yet passed; everything else is returned. *)
+Theorem from_snapshots_keeps_marked : forall now l,
+  from_snapshots now l =
+    [ (default_key, map (fun s => (s, must_keep s now, if must_keep s now then FSnapshot else FIfArgument)) l) ] /\
+  from_snapshots_forget_ids now l = map s_id (filter (fun s => negb (must_keep s now)) l) /\
+  (forall s, must_keep s now = true <-> s_del s = DNever \/ exists t, s_del s = DAfter t /\ now <= t).
+Proof. exact from_snapshots_thm. Qed.
+Print Assumptions from_snapshots_keeps_marked.
+
+(* Raising any keep count never adds an id to the list returned by the command. *)
+Theorem forget_raising_count_monotone : forall ksort tsort, ksort_spec ksort -> tsort_spec tsort ->
+  forall c k k' now l ids ids',
+  same_but_counts k k' ->
+  forget ksort tsort c k now l = Some ids -> forget ksort tsort c k' now l = Some ids' ->
+  forall i, In i ids' -> In i ids.
+Proof. exact forget_raising_count_thm. Qed.
+Print Assumptions forget_raising_count_monotone.
